@@ -407,6 +407,21 @@ let cmd_merge (arg : string) : string =
   let snaps = List.map (fun evs -> (fst (pc_run (pc_new (nat_of_int (int_of_string limit))) evs)).pc_clients) segs in
   "C=" ^ render_cmap (rep_receive [] snaps)
 
+(* squeue <cap> <limit> <op>|<op>|...   op = D (reporter drains) or P:<ev,ev,...> (a worker's recorder with
+   <limit>, its snapshot published with force_push when non-empty) *)
+let cmd_squeue (arg : string) : string =
+  match String.split_on_char ' ' (String.trim arg) with
+  | [cap; limit; ops] ->
+    let ops = List.map (fun o ->
+        if o = "D" then QDrain
+        else
+          let evs = List.map parse_sop (split_on ',' (String.sub o 2 (String.length o - 2))) in
+          QPush (fst (pc_run (pc_new (nat_of_int (int_of_string limit))) evs)).pc_clients)
+        (split_on '|' ops) in
+    let ((_, merged), lost) = q_run { sq_cap = nat_of_int (int_of_string cap); sq_items = [] } [] [] ops in
+    Printf.sprintf "C=%s LOST=%d" (render_cmap merged) (List.length lost)
+  | _ -> failwith "squeue args"
+
 (* ---------- envelope ---------- *)
 let render_kres (f : 'a -> string) (o : (kms_error, 'a) outcome) : string =
   match o with
@@ -678,6 +693,7 @@ let dispatch (line : string) : string =
   | "merkle" -> cmd_merkle rest
   | "classify" -> cmd_classify rest
   | "srep" -> cmd_srep rest
+  | "squeue" -> cmd_squeue rest
   | "serve" -> cmd_serve rest
   | "respond" -> cmd_respond rest
   | "signer" -> cmd_signer rest
